@@ -18,7 +18,7 @@ PURE_OS = {"getpid", "getcwd", "fspath", "sep", "pathsep", "linesep", "name", "e
 PURE_PATH = {"join", "split", "basename", "dirname", "normpath", "abspath", "isabs", "splitext", "sep", "commonpath", "commonprefix",
              "relpath", "expanduser", "expandvars", "normcase", "splitdrive", "pardir", "curdir", "altsep", "extsep", "pathsep"}
 
-MODULES = ["dds.store", "dds.codecs.builtins", "dds._lru_store", "dds._api", "dds.codecs.pandas", "dds.codec"]
+MODULES = ["dds.store", "dds.codecs.builtins", "dds._lru_store", "dds._api", "dds.codecs.pandas", "dds.codec", "vf.harness.c06_codec"]
 
 
 class Channel(object):
